@@ -156,6 +156,10 @@ impl OovProviderPlugin for RegexOovProvider {
                 let match_end = input_text.ch_idx(byte_offset + m.end());
 
                 let match_length = match_end - match_start;
+                if match_length == 0 {
+                    // the pattern matched the empty string: there is no word to propose
+                    return Ok(0);
+                }
 
                 match other_words.has_word(match_length as i64) {
                     HasWord::Yes => return Ok(0),
